@@ -328,6 +328,11 @@ class C16(Check):
         eng.claim("field without a default value is rejected", raises(lambda: type("N1", (ArgsNamespace,), {"__annotations__": {"x": "int"}}, render_cls=A), T.RenderArgsError))
         N = type("N", (ArgsNamespace,), {"__annotations__": {"x": "int"}, "x": 1}, render_cls=A)
         eng.claim("a render class cannot get a second namespace class", raises(lambda: type("N2", (ArgsNamespace,), {"__annotations__": {"y": "int"}, "y": 1}, render_cls=A), T.RenderArgsError))
+        # a rejected definition leaves no trace: the class keeps its namespace class and goes on working with it
+        eng.claim("a rejected second namespace class leaves the render class associated with the first one", A.Args is N)
+        a0 = self.RenderArgs(A)
+        eng.claim("after a rejected definition the class's namespace still works (construction, membership, equality)",
+                  (not raises(lambda: N(x=5), Exception)) and raises(lambda: N(y=5), T.UnknownArgsFieldError) and a0[A] == N() and (+N(7))[A].x == 7)
         B = mk("B")
         eng.claim("a namespace subclass cannot be re-associated", raises(lambda: type("N3", (N,), {}, render_cls=B), T.RenderArgsDataError))
         eng.claim("a subclass cannot both inherit and define fields", raises(lambda: type("N4", (N,), {"__annotations__": {"z": "int"}, "z": 1}), T.RenderArgsDataError))
@@ -336,6 +341,7 @@ class C16(Check):
         eng.claim("multiple bases are rejected", raises(lambda: type("N5", (N, M), {}), T.RenderArgsDataError, TypeError))
         eng.claim("a namespace class with fields must be associated", raises(lambda: type("N6", (ArgsNamespace,), {"__annotations__": {"x": "int"}, "x": 1}), T.RenderArgsDataError))
         eng.claim("association requires fields", raises(lambda: type("N7", (ArgsNamespace,), {}, render_cls=B), T.RenderArgsDataError))
+        eng.claim("rejected definitions did not associate anything with the other classes", B.Args is None and Cc.Args is M)
         eng.claim("unknown field names are rejected by the constructor and by update()", raises(lambda: N(q=1), T.UnknownArgsFieldError) and raises(lambda: N().update(q=1), T.UnknownArgsFieldError))
         eng.claim("too many positional values are rejected", raises(lambda: N(1, 2), TypeError))
         eng.claim("fields cannot be assigned or deleted", raises(lambda: setattr(N(), "x", 2), AttributeError) and raises(lambda: delattr(N(), "x"), AttributeError))
